@@ -38,7 +38,8 @@ PROPS: dict[str, dict[str, Any]] = {
     },
     "C09": {
         "level": "exploration",
-        "sidecars": [],
+        "sidecars": ["contracts/c09.py"],
+        "native_n": {"quick": 300, "thorough": 10000},
         "bounded": [{"script": "bounded/store_harness.py", "args": ["--mode", "c09"]}],
         "rule": "bounded stand-in: stores of 3 traces (two under one workflow name with shapes drawn from all labelled rooted trees of <= 3 spans over 2 "
                 "types - thorough: plus a third of those of 4 spans - one under another name), sibling order and ids permuted, x batch sizes {1,2,3,1000} "
